@@ -1,8 +1,8 @@
 ---------------------------- MODULE MC_RoundTrip ----------------------------
 EXTENDS RoundTrip
 PathsDef == {"a", "b", "s/c", "s/t/d"}
-ContentsDef == {"c0", "c1", "c2"}
-SizeDef == [c \in ContentsDef |-> IF c = "c0" THEN 0 ELSE IF c = "c1" THEN 18 ELSE 20]
+ContentsDef == {"c0", "c1", "c2", "c3"}      \* c3 has the size of c1
+SizeDef == [c \in ContentsDef |-> IF c = "c0" THEN 0 ELSE IF c \in {"c1", "c3"} THEN 18 ELSE 20]
 ContentsTr == ContentsDef \cup {"other"}
-SizeTr == [c \in ContentsTr |-> IF c = "c0" THEN 0 ELSE IF c = "c1" THEN 18 ELSE IF c = "c2" THEN 20 ELSE 1]
+SizeTr == [c \in ContentsTr |-> IF c = "c0" THEN 0 ELSE IF c \in {"c1", "c3"} THEN 18 ELSE IF c = "c2" THEN 20 ELSE 1]
 =============================================================================
